@@ -4,6 +4,7 @@ from __future__ import annotations
 import ast
 
 from .pymodel import Program, iter_events
+from .idioms import negated_flag, mirrors_edge_list
 from .report import Run, AnalysisError
 
 LOADERS = [("Network", "FromIGraph"), ("SpatialNetwork", "Load"),
@@ -232,12 +233,22 @@ def s3(run: Run, prog: Program):
     if not ok:
         run.add("S3", "Network.adjacency.setter/halve", st_.where,
                 "the link count must be halved exactly when the network is undirected")
-    for fn, test in ((net.methods["set_edge_list"], "notself.directed"),
-                     (net.methods["FromIGraph"], "notdirected")):
+    for fn, flags in ((net.methods["set_edge_list"], ("self.directed",)),
+                      (net.methods["FromIGraph"], ("directed",))):
         ok = False
+        # locals (or parameters) that carry the directedness
+        flags = set(flags) | {p_ for p_ in fn.params if p_ == "directed"}
+        for a_ in ast.walk(fn.node):
+            if isinstance(a_, ast.Assign) and isinstance(a_.targets[0], ast.Name) and any(
+                    (isinstance(x, ast.Attribute) and x.attr in ("directed", "is_directed"))
+                    for x in ast.walk(a_.value)):
+                flags.add(a_.targets[0].id)
         for i in ast.walk(fn.node):
-            if isinstance(i, ast.If) and ast.unparse(i.test).replace(" ", "") == test \
-                    and any("edges[:, [1, 0]]" in ast.unparse(s) for s in i.body):
+            if isinstance(i, ast.If) and negated_flag(i.test, flags) \
+                    and any(mirrors_edge_list(s) for s in i.body):
+                ok = True
+            if isinstance(i, ast.If) and ast.unparse(i.test) in flags \
+                    and any(mirrors_edge_list(s) for s in i.orelse):
                 ok = True
         run.oblige("S3", f"{fn.qualname}:symmetrise", ok)
         if not ok:
@@ -395,6 +406,7 @@ def s6(run: Run, prog: Program):
                  and ast.unparse(l.iter).endswith(".es")]
         mirrored = False
         for l in loops:
+            v = l.target.id if isinstance(l.target, ast.Name) else "e"
             stores = [s for s in l.body if isinstance(s, ast.Assign)
                       and isinstance(s.targets[0], ast.Subscript)]
             for i, a in enumerate(stores):
@@ -404,9 +416,13 @@ def s6(run: Run, prog: Program):
                             ast.unparse(b.targets[0].value):
                         ia = ast.unparse(a.targets[0].slice).replace(" ", "")
                         ib = ast.unparse(b.targets[0].slice).replace(" ", "")
-                        if ia == "e.tuple" and ib in ("(e.tuple[1],e.tuple[0])",
-                                                      "e.tuple[1],e.tuple[0]",
-                                                      "e.tuple[::-1]"):
+                        fwd = (f"{v}.tuple", f"({v}.tuple[0],{v}.tuple[1])",
+                               f"{v}.tuple[0],{v}.tuple[1]",
+                               f"{v}.source,{v}.target", f"({v}.source,{v}.target)")
+                        bwd = (f"({v}.tuple[1],{v}.tuple[0])", f"{v}.tuple[1],{v}.tuple[0]",
+                               f"{v}.tuple[::-1]", f"{v}.target,{v}.source",
+                               f"({v}.target,{v}.source)")
+                        if (ia in fwd and ib in bwd) or (ia in bwd and ib in fwd):
                             mirrored = True
         n += 1
         run.oblige("S6", f"{cname}.{mname}", mirrored, sample={"where": m.where})
